@@ -323,6 +323,14 @@ func (g *jsgen) stmt2(k, d int) string {
 				fmt.Fprintf(&drv, "%s.next(%d); ", gv, i)
 			}
 		}
+		if !g.strict && g.t.Draw(3) == 0 {
+			// the generator is suspended (and resumed) while assignments to unresolved/with-scoped references are pending,
+			// inside a try statement: the pending reference records belong to the activation, not to the caller
+			g.use("generator-pending-reference-across-yield")
+			q := g.id("q")
+			return fmt.Sprintf("{ var %s = (function*(){ var o = { %s: 0 }; with (o) { try { %s = yield 1; %s %s = (yield 2) + %s; %s } catch (%s) { r += %s; } finally { r += %s; } } })(); %s }",
+				gv, q, q, g.blk(d), q, g.p(), g.stmt(d), g.id("e"), g.p(), g.p(), drv.String())
+		}
 		return fmt.Sprintf("{ var %s = (function*(){ try { %s r += yield 1; %s yield 2; } finally { r += %s; } })(); %s }", gv, g.blk(d), g.stmt(d), g.p(), drv.String())
 	case 38:
 		g.use("generator-for-of")
